@@ -128,7 +128,8 @@ impl Universe {
         let ret: Value;
         match op {
             "add_track" => {
-                let t = self.build_track(jint(o, "id") as u64, jint(o, "cls") as u64, jint(o, "v"), None).expect("build");
+                let upd = o.get("u").and_then(|u| u.as_str()).and_then(Upd::parse);
+                let t = self.build_track(jint(o, "id") as u64, jint(o, "cls") as u64, jint(o, "v"), upd).expect("build");
                 n0 = self.notifier.get();
                 ret = match self.store.add_track(t) {
                     Ok(_) => json!("ok"),
